@@ -100,6 +100,15 @@ def check_proofs(pid):
     return (not info['failed']), info
 
 
+def run_coqchk(pid):
+    """thorough tier: the independent checker re-checks the compiled property file and everything it depends on and lists the axioms"""
+    p = jv.sh('timeout 2400 coqchk -silent -o -Q %s/theories Join -Q %s/Properties JoinProps JoinProps.%s 2>&1' % (jv.COQ, jv.COQ, pid), check=False, timeout=2500)
+    m = re.search(r'\* Axioms:\s*(.*?)\n\s*\n', p.stdout, flags=re.S)
+    axioms = [a.strip() for a in (m.group(1).split('\n') if m else []) if a.strip() and a.strip() != '<none>']
+    ok = p.returncode == 0 and all(a.split('.')[-1] in ALLOWED_AXIOMS for a in axioms) and 'type-in-type: <none>' in p.stdout.replace('relying on ', '')
+    return ok, axioms, p.stdout[-600:]
+
+
 def stable_hash(s):
     return hashlib.sha1(s.encode()).hexdigest()[:12]
 
@@ -134,6 +143,16 @@ def main():
     if args.dev_skip_proofs:
         proofs_ok = True
         print('DEV MODE: proof obligations skipped - not a valid check run')
+
+    chk = None
+    if tier == 'thorough' and proofs_ok and not args.dev_skip_proofs:
+        ok, axioms, tail = run_coqchk(pid)
+        chk = {'ok': ok, 'axioms': axioms}
+        if not ok:
+            proofs_ok = False
+            pinfo['broken_at'] = 'coqchk: ' + tail[-300:]
+            pinfo['failed'] = list(pinfo['obligations'])
+            pinfo['discharged'] = []
 
     # 2. harness against /repo's working tree
     ok, out = jv.build_implrun()
@@ -194,6 +213,8 @@ def main():
     }
     if report.get('search'):
         cov['search_after_break'] = report['search']
+    if chk:
+        cov['coqchk'] = chk
     nviol = len(violations) + (1 if (broken and not violations) else 0)
     jv.write_evidence(pid, tier, seed, level, cov, wall, nviol, props.ASSUMPTIONS + P.get('assumptions', []))
 
